@@ -126,6 +126,7 @@ struct World {
     refused_attempts: u64,
     selffake_trials: u64,
     munmap_refused_exits: u64,
+    contended_exits: u64,
     /// start addresses of every function the harness knows (targets and never-named neighbours), sorted
     starts: Vec<usize>,
 }
@@ -222,6 +223,7 @@ pub fn run(ctx: &Ctx) {
         refused_attempts: 0,
         selffake_trials: 0,
         munmap_refused_exits: 0,
+        contended_exits: 0,
         starts: Vec::new(),
     };
     w.starts = w.pool.targets.iter().map(|t| t.addr).chain(w.pool.neighbours.iter().map(|n| n.0)).chain(w.pool.synth.slots.iter().map(|s| s.0)).collect();
@@ -385,7 +387,37 @@ pub fn run(ctx: &Ctx) {
         let mut sig = String::new();
         let mut detail = J::new();
         for (j, p) in plans.iter().enumerate() {
-            let (v, s, d) = lifetime(&mut w, &mons, p, &mut rng);
+            // C12: one lifetime in sixteen runs on a thread of its own that ends right afterwards, with another thread
+            // already queueing for the guard when the injector goes away (hand-over under contention)
+            let contended = mons.c12 && !mons.c03 && !mons.c02 && !mons.c17 && idx % 16 == 5;
+            let (v, s, d) = if contended {
+                CONTENDED.store(true, Ordering::SeqCst);
+                HOLDER_IN.store(false, Ordering::SeqCst);
+                WAITER_ASKING.store(false, Ordering::SeqCst);
+                w.contended_exits += 1;
+                let r = std::thread::scope(|sc| {
+                    let waiter = sc.spawn(|| {
+                        let t0 = std::time::Instant::now();
+                        while !HOLDER_IN.load(Ordering::SeqCst) && t0.elapsed().as_secs() < 20 {
+                            std::hint::spin_loop();
+                        }
+                        WAITER_ASKING.store(true, Ordering::SeqCst);
+                        std::panic::catch_unwind(|| drop(InjectorPP::new())).is_ok()
+                    });
+                    let h = sc.spawn(|| lifetime(&mut w, &mons, p, &mut rng));
+                    let out = h.join();
+                    HOLDER_IN.store(true, Ordering::SeqCst);
+                    let _ = waiter.join();
+                    out
+                });
+                CONTENDED.store(false, Ordering::SeqCst);
+                match r {
+                    Ok(x) => x,
+                    Err(_) => (Verdict::Violated, "c12:lifetime-thread-died".to_string(), J::new()),
+                }
+            } else {
+                lifetime(&mut w, &mons, p, &mut rng)
+            };
             if v != Verdict::Held {
                 verdict = v;
                 sig = s;
@@ -444,6 +476,7 @@ fn summary_json(w: &World, decided: u64) -> J {
         .n("refused_installations_inside_histories", w.refused_attempts)
         .n("self_fake_installations_tried", w.selffake_trials)
         .n("scope_exits_with_munmap_refused", w.munmap_refused_exits)
+        .n("lifetimes_on_a_short_lived_thread_with_a_waiter_queued_at_scope_exit", w.contended_exits)
         .n("foreign_pages_on_early_freed_trampolines_checked", w.foreign_pages_checked)
         .o("counters", ip::counters_json())
 }
@@ -517,6 +550,10 @@ fn selffake_victim() -> i32 {
     std::hint::black_box(0x5E1F)
 }
 
+static CONTENDED: std::sync::atomic::AtomicBool = std::sync::atomic::AtomicBool::new(false);
+static HOLDER_IN: std::sync::atomic::AtomicBool = std::sync::atomic::AtomicBool::new(false);
+static WAITER_ASKING: std::sync::atomic::AtomicBool = std::sync::atomic::AtomicBool::new(false);
+
 fn lifetime(w: &mut World, mons: &Mons, p: &Plan, rng: &mut Rng) -> (Verdict, String, J) {
     let _whole = ip::LibScope::enter();
     w.lifetimes += 1;
@@ -538,6 +575,9 @@ fn lifetime(w: &mut World, mons: &Mons, p: &Plan, rng: &mut Rng) -> (Verdict, St
 
     let body = |w: &mut World, viol: &mut Option<(String, J)>, model: &mut HashMap<usize, Vec<i64>>, timed: &mut Vec<(&'static std::sync::atomic::AtomicUsize, usize, usize, usize)>, installs_done: &mut usize, prev_snap: &mut Option<maps::Snapshot>, named: &mut BTreeSet<usize>, lib_maps: &mut Vec<(usize, usize)>, rng: &mut Rng| -> (InjectorPP, bool) {
         let mut inj = ip::lib(InjectorPP::new);
+        if CONTENDED.load(Ordering::SeqCst) {
+            HOLDER_IN.store(true, Ordering::SeqCst);
+        }
         for (si, s) in p.steps.iter().enumerate() {
             if p.exit == Exit::UserPanic && p.panic_at == si {
                 // scope exit by unwinding after `si` installs
@@ -730,6 +770,13 @@ fn lifetime(w: &mut World, mons: &Mons, p: &Plan, rng: &mut Rng) -> (Verdict, St
         before_drop_marks.set(m0);
         // C17 on its own: in one lifetime out of 40 the OS refuses every munmap of the scope exit; the restored
         // entries must be flushed all the same
+        if CONTENDED.load(Ordering::SeqCst) {
+            let t0 = std::time::Instant::now();
+            while !WAITER_ASKING.load(Ordering::SeqCst) && t0.elapsed().as_secs() < 5 {
+                std::hint::spin_loop();
+            }
+            std::thread::sleep(std::time::Duration::from_millis(2));
+        }
         let refuse_munmap = mons.c17 && !mons.c12 && !mons.c03 && !mons.c02 && !user_panic && p.exit == Exit::Normal && w.lifetimes % 40 == 7;
         if refuse_munmap {
             w.munmap_refused_exits += 1;
